@@ -478,7 +478,8 @@ PROPS = {
         check_module="C13Check",
         theorems={t: [] for t in [
             "C13_every_history", "C13_get", "C13_insert", "C13_entry", "C13_remove",
-            "C13_other_handles_after_remove", "C13_iter_len", "C13_mask_is_mod"]},
+            "C13_other_handles_after_remove", "C13_iter_len", "C13_mask_is_mod",
+            "C13_constructed_handles_nonzero"]},
         n_quick=300, n_thorough=4000,
         gates=["ht.grew>1", "ht.removed_present", "ht.alloc_failed", "ht.entry_new>16", "ht.index_absent",
                "ht.cap0_not_pow2", "ht.keys=colliding", "ht.keys=small", "ht.keys=random"],
